@@ -43,8 +43,8 @@ ACTIONS = ['Resolve', 'BeginCase', 'AccessCase', 'ConfPhase', 'ParseAct', 'Valid
            'Finish']
 ALL_MUTS = ['none', 'envAll', 'envAct', 'envNon', 'unset', 'unsetAct', 'expand', 'expandAct', 'cdTmp', 'cdUp', 'cdSub',
             'timeout', 'def', 'refX', 'files', 'stdin', 'statusFail', 'statusSkip', 'actorNull', 'obsT', 'syntaxErr',
-            'envBA', 'envCleanup', 'defLate', 'cdLate', 'timeoutLate', 'homeConf']
-CORE_MUTS = ['envAll', 'expand', 'cdTmp', 'def', 'files', 'statusFail']
+            'envBA', 'envCleanup', 'defLate', 'cdLate', 'timeoutLate', 'homeConf', 'inclShared']
+CORE_MUTS = ['envAll', 'expand', 'cdTmp', 'def', 'files', 'statusFail', 'inclShared']
 ENDS = ['pass', 'fail', 'hard', 'acthard', 'cleanuphard']
 QUICK_ENDS = ['pass', 'fail', 'hard']
 SDS_KINDS = ['arg', 'argTmp', 'shell', 'defStr', 'defPath', 'defCd', 'file', 'fileHere', 'env', 'program', 'ba',
@@ -312,8 +312,11 @@ def doc_text(doc, own, home_dependent=False):
     unless it sets a home directory of its own"""
     sets_home = any(i['op'] == 'home' for i in doc['conf'])
     t = ''
+    has_incl = any(i.get('org') == 'incl' for ph in PHASES for i in doc[ph])
     for ph in PHASES:
-        lines = [l for i in doc[ph] for l in render(i, own, ph)]
+        lines = [l for i in doc[ph] if i.get('org') != 'incl' for l in render(i, own, ph)]
+        if ph == 'setup' and has_incl:
+            lines.append('including shared.xly')
         if ph == 'setup' and home_dependent and not sets_home and any(doc[q] for q in PHASES if q != 'conf'):
             lines = ['run -rel-home here.sh'] + lines
         if lines:
@@ -359,6 +362,10 @@ def concretize(r):
     for n, c in enumerate(r['tree']['cases'], 1):
         cpath[n] = ('sub/' if c['home'] == 1 else '') + case_name(n)
         files[cpath[n]] = doc_text(c['doc'], n, home_dependent=(r['fam'] == 'hist'))
+        incl = [(ph, i) for ph in PHASES for i in c['doc'][ph] if i.get('org') == 'incl']
+        if incl:        # the file every such case includes: the same text for all of them
+            files[os.path.join(os.path.dirname(cpath[n]), 'shared.xly')] = ''.join(
+                '[%s]\n' % ph + ''.join(l + '\n' for l in render(i, 0, ph)) for ph, i in incl)
         if r['fam'] == 'hist':
             d = os.path.dirname(cpath[n])
             files[os.path.join(d, 'here.sh')] = '#!/bin/sh\nexit 0\n'
@@ -826,12 +833,12 @@ def negative_controls(ctx, recs, obs, projs):
 def plans(tier):
     if tier == 'quick':
         return [('main', dict(families=['hist', 'merge', 'sds', 'sym'], ends=QUICK_ENDS,
-                              later=['none', 'refX', 'def', 'obsT', 'expand'],
+                              later=['none', 'refX', 'def', 'obsT', 'expand', 'inclShared'],
                               len_all=2, len_core=0, merge_case_sets='two', sds_cases=(2,),
                               sym_vals=('v1', 'v2', 'vbad', 'vnone', 'vtype')), None)]
     return [('main', dict(families=['hist', 'merge', 'sds', 'sym'], len_all=2, len_core=3, merge_case_sets='all',
                           sds_cases=(2, 3), sym_vals=('v1', 'v2', 'v3', 'vbad', 'vnone', 'vtype'), sym_len=3), None),
-            ('triples', dict(families=['hist'], ends=QUICK_ENDS, later=['none', 'refX', 'def', 'obsT', 'expand', 'envAct'],
+            ('triples', dict(families=['hist'], ends=QUICK_ENDS, later=['none', 'refX', 'def', 'obsT', 'expand', 'envAct', 'inclShared'],
                              len_all=3, len_core=4), None),
             ('random', dict(families=['file']), 1500)]
 
